@@ -177,10 +177,11 @@ class IO:
             self.lagrangian_fields_with_grid_name[lagrangian_grid_name].append(field_name)
 
             # Assign field types
-            if field.shape[0] == lagrangian_grid.shape[1]:
-                self.lagrangian_fields_type[field_name] = "Scalar"
-            elif field.shape == lagrangian_grid.shape:
+            # check the vector shape first: (dim, N) also satisfies shape[0] == N when N == dim
+            if field.shape == lagrangian_grid.shape:
                 self.lagrangian_fields_type[field_name] = "Vector"
+            elif field.shape[0] == lagrangian_grid.shape[1]:
+                self.lagrangian_fields_type[field_name] = "Scalar"
             else:
                 msg = (
                     f"Unable to identify lagrangian field type "
